@@ -36,6 +36,8 @@ fn main() {
         "lex-replay" => xv::lexrep::cmd_replay(rest),
         "print-replay" => xv::lexrep::cmd_print_replay(rest),
         "lex-fuzz" => xv::lexrep::cmd_fuzz(rest),
+        "loc-replay" => xv::loc::cmd_replay(rest),
+        "locfn-replay" => xv::loc::cmd_fn_replay(rest),
         other => {
             eprintln!("unknown subcommand {}", other);
             2
